@@ -24,7 +24,14 @@ RULE = ("case = (namespace tree built through the public API, all candidate dott
         "auto_dash_names on/off/mixed, constructor vs method building, from_module re-import (explicit ns / implicit "
         "module) of the root or of a sub-collection; candidates = every collection path x every name of the tree "
         "(+ dash/underscore variants, empty and unknown names); a case is non-trivial when the tree has a "
-        "sub-collection and an alias or a default; distinct = distinct (tree, names)")
+        "sub-collection and an alias or a default; distinct = distinct (tree, names).  Object-reuse histories (judged by "
+        "the same oracles on the FINAL state): (a) the tree built by add_task/add_collection/configure steps in random "
+        "order - children attached before or after they are filled - with task_names / to_contexts / bool / in / lookup "
+        "/ Parser / --list / serialized queries on the root and on intermediate collections between the steps, compared "
+        "with a twin built at once; (b) one or two Program objects serving a sequence of command lines (scoped, plain, "
+        "depth-limited listings in every format, task runs), every run compared with a fresh Program; (c) a "
+        "sub-collection object mounted under a second root, both roots queried, then tasks / aliases / defaults / "
+        "sub-collections added to already-mounted nested collections; a history case = (tree, history kind, history seed)")
 TRUSTED = ["Lean 4.33 kernel", "axioms propext/Classical.choice/Quot.sound only",
            "harness/props/c10.py: tree builder, serialisation of the real object, canonicalisation, listing parsers",
            "model Invoke/Model/Collection.lean hand-written, tied to invoke.collection / Program._make_pairs by the "
@@ -1089,6 +1096,328 @@ def compare(ctx, out, drv, lines, expect):
     out.extra["theorem_coverage"] = {"trees_wf (hypothesis of the theorems holds)": wf_yes, "trees_not_wf (search only)": wf_no}
 
 
+
+# ------------------------------------------------------------------------------------------ object-reuse histories
+# The model describes the FINAL tree.  These families reach the same final tree (or run the same argv) through a
+# history on live objects - queries between construction steps, one Program serving several runs, collections mounted
+# under two roots - and demand exactly what is demanded of a tree built at once / of a fresh Program.
+
+def methodsify(spec):
+    """the same tree as a sequence of add_task / add_collection / configure calls (no constructor args, no module)"""
+    n = copy.deepcopy(strip(spec))
+
+    def fix(node):
+        node.pop("module", None)
+        node.pop("order", None)
+        node["via"] = "methods"
+        for k in node["colls"]:
+            fix(k["node"])
+    fix(n)
+    return n
+
+
+def spec_nodes(node, path=()):
+    yield node, path
+    for i, k in enumerate(node["colls"]):
+        yield from spec_nodes(k["node"], path + (i,))
+
+
+def poke(hrng, root, objs, voc):
+    """one query on a live object, as a Program / completion / truth test would make it; the answer is discarded"""
+    from invoke.parser import Parser
+    target = root if hrng.random() < 0.6 else hrng.choice(objs)
+    act = hrng.choice(["names", "contexts", "bool", "in", "lookup", "parser", "list", "serialized", "cfg"])
+    try:
+        if act == "names":
+            target.task_names
+        elif act == "contexts":
+            target.to_contexts()
+        elif act == "bool":
+            bool(target)
+        elif act == "in":
+            hrng.choice(voc) in target
+        elif act == "lookup":
+            target[hrng.choice(voc)]
+        elif act == "parser":
+            Parser(contexts=target.to_contexts())
+        elif act == "list":
+            quiet_run(target, ["--list", "--list-format", hrng.choice(["flat", "nested", "json"])])
+        elif act == "serialized":
+            target.serialized()
+        else:
+            target.configuration()
+    except Exception:  # half-built trees may refuse; only the final state is judged
+        pass
+    return act
+
+
+def build_incremental(spec, b, hrng):
+    """all collections first (empty), then the add_task / add_collection / configure steps in random order - a child is
+    attached to its parent before or after it is filled - with queries on the root and on intermediate collections
+    between the steps"""
+    from invoke import Collection
+    nodes = list(spec_nodes(spec))
+    objs = {}
+    for node, path in nodes:
+        kw = {}
+        if node.get("ad") is not None:
+            kw["auto_dash_names"] = node["ad"]
+        objs[path] = Collection(*([node["name"]] if node["name"] is not None else []), **kw)
+    steps = []
+    voc = ["nope"]
+    for node, path in nodes:
+        for ts in node["tasks"]:
+            t, vid = make_task(b, ts)
+            ts["_vid"] = vid
+            steps.append(("task", path, ts, t))
+            voc += [ts["bind"] or ts["tname"] or ts["fn"]] + ts["own"] + ts["extra"]
+        for i, ks in enumerate(node["colls"]):
+            steps.append(("coll", path, ks, path + (i,)))
+            voc.append(kid_raw(ks))
+        if node.get("cfg"):
+            steps.append(("cfg", path, node["cfg"], None))
+    hrng.shuffle(steps)
+    root = objs[()]
+    everything = list(objs.values())
+    pokes = 0
+    for kind, path, x, y in steps:
+        c = objs[path]
+        if kind == "task":
+            c.add_task(y, name=x["bind"], aliases=tuple(x["extra"]) or None, default=True if x["default"] == "add" else None)
+        elif kind == "coll":
+            c.add_collection(objs[y], name=x["bind"], default=True if x["default"] else None)
+        else:
+            c.configure(copy.deepcopy(x))
+        while hrng.random() < 0.6:
+            poke(hrng, root, everything, voc)
+            pokes += 1
+    return root, objs, pokes
+
+
+def summary(root, names):
+    """what a tree looks like from outside (for the comparison with a twin built at once)"""
+    try:
+        parser = impl_parser(root)
+    except SettingsClash:
+        return None
+    acc = None
+    if parser is not None:
+        acc = sorted(set(dict.keys(parser.contexts)) | set(parser.contexts.aliases.keys()))
+    flat = canon_flat(parse_flat(quiet_run(root, ["--list"])[0])) if parser is not None else None
+    looks = []
+    for n in names:
+        res, t, cfg = impl_lookup(root, n)
+        looks.append(res.split(" ")[0] if t is None else "OK")  # task identities differ between twins
+    return {"names": impl_names(root), "accepted": acc, "flat": flat, "lookup": looks}
+
+
+def history_incremental(spec, hseed):
+    """-> (fails, stats); spec must already be methodsified"""
+    import random
+    hrng = random.Random(hseed)
+    spec = copy.deepcopy(spec)
+    b = Built()
+    try:
+        root, objs, pokes = build_incremental(spec, b, hrng)
+    except ValueError:
+        return [], {"refused": 1}
+    names = candidates(root, hrng, 60)
+    fails = list(oracle_c10(spec, root, b, names))
+    try:
+        spec2, twin, b2 = build_case(spec)
+        a, t = summary(root, names), summary(twin, names)
+        if a != t:
+            key = [k for k in (a or {}) if (t or {}).get(k) != a[k]] if a and t else ["parser"]
+            fails.append(("history-differs-from-build-at-once", "the tree built step by step (with queries in between) "
+                          "differs from the same tree built at once in %s: %r vs %r" % (key[0], (a or {}).get(key[0]), (t or {}).get(key[0])), []))
+    except ValueError:
+        pass
+    return fails, {"pokes": pokes, "steps": sum(1 for _ in spec_nodes(spec))}
+
+
+def node_at(spec, root, path):
+    """spec node and real collection at a path of child indices"""
+    node, real = spec, root
+    for i in path:
+        ks = node["colls"][i]
+        real = dict.get(real.collections, norm(eff_ad(node), kid_raw(ks)))
+        node = ks["node"]
+    return node, real
+
+
+def history_shared(spec, hseed):
+    """a tree built at once and queried; one of its sub-collections is ALSO mounted under a second root; then an
+    already-mounted nested collection gains a task / an alias / a sub-collection; both roots must satisfy the property"""
+    import random
+    from invoke import Collection
+    hrng = random.Random(hseed)
+    spec = copy.deepcopy(spec)
+    b = Built()
+    try:
+        root = build(spec, b)
+    except ValueError:
+        return [], {"refused": 1}
+    inner = [(n, p) for n, p in spec_nodes(spec) if p]
+    if not inner:
+        return [], {"no_inner": 1}
+    objs = [node_at(spec, root, p)[1] for _, p in spec_nodes(spec)]
+    voc = sorted(vocabulary(root)) + ["nope"]
+    for _ in range(hrng.randint(2, 6)):
+        poke(hrng, root, objs, voc)
+    quiet_run(root, ["--list"])
+    # a second root mounting one of the sub-collections (the very same object) under another name
+    snode, spath = hrng.choice(inner)
+    shared_real = node_at(spec, root, spath)[1]
+    oad = hrng.choice([True, False]) if len(flags_of(spec)) > 1 else eff_ad(spec)  # keep uniform trees uniform (N4)
+    ospec = {"name": None, "ad": oad, "tasks": [{"fn": "other_task", "tname": None, "own": [], "bind": None, "extra": [], "default": None}],
+             "colls": [{"node": snode, "bind": "shared_x", "default": False}], "cfg": {}, "via": "methods"}
+    other = Collection(auto_dash_names=oad)
+    ot, vid = make_task(b, ospec["tasks"][0])
+    ospec["tasks"][0]["_vid"] = vid
+    other.add_task(ot)
+    other.add_collection(shared_real, name="shared_x")
+    for _ in range(hrng.randint(1, 4)):
+        poke(hrng, other, [other, shared_real], voc)
+    # late additions to collections that are already mounted (and already seen through both roots)
+    for _ in range(hrng.randint(1, 3)):
+        tnode, tpath = hrng.choice(inner)
+        treal = node_at(spec, root, tpath)[1]
+        k = len(tnode["tasks"]) + len(tnode["colls"])
+        if hrng.random() < 0.7:
+            ts = {"fn": "late_task%d" % k, "tname": None, "own": ["late_alias%d" % k] if hrng.random() < 0.6 else [],
+                  "bind": None, "extra": ["x_late%d" % k] if hrng.random() < 0.4 else [], "default": None}
+            if hrng.random() < 0.3 and default_target_local(tnode) is None:
+                ts["default"] = "add"
+            t, vid = make_task(b, ts)
+            ts["_vid"] = vid
+            treal.add_task(t, aliases=tuple(ts["extra"]) or None, default=True if ts["default"] else None)
+            tnode["tasks"].append(ts)
+        else:
+            sub = {"name": "late_sub%d" % k, "ad": tnode.get("ad"), "tasks": [{"fn": "lt", "tname": None, "own": [], "bind": None,
+                   "extra": [], "default": "add"}], "colls": [], "cfg": {}, "via": "methods"}
+            ks = {"node": sub, "bind": None, "default": False}
+            treal.add_collection(build(sub, b, is_root=False))
+            tnode["colls"].append(ks)
+        poke(hrng, root, objs, voc)
+    fails = []
+    names = candidates(root, hrng, 60)
+    for f in oracle_c10(spec, root, b, names):
+        fails.append(f)
+    for kind, why, inv in oracle_c10(ospec, other, b, candidates(other, hrng, 40)):
+        fails.append((kind, "[second root mounting the shared sub-collection] " + why, inv))
+    return fails, {"shared": 1}
+
+
+def default_target_local(node):
+    return next((1 for t in node["tasks"] if t["default"]), None) or next((1 for k in node["colls"] if k["default"]), None)
+
+
+def run_on(program, argv):
+    out, err = io.StringIO(), io.StringIO()
+    del RUNLOG[:]
+    exc = None
+    try:
+        with contextlib.redirect_stdout(out), contextlib.redirect_stderr(err), wide_terminal():
+            program.run(["prog"] + argv, exit=False)
+    except BaseException as e:  # noqa
+        exc = "%s: %s" % (type(e).__name__, e)
+    return out.getvalue(), err.getvalue(), [v for v, _ in RUNLOG], exc
+
+
+def reuse_argvs(root, hrng, accepted):
+    paths = []
+
+    def walk(c, pre):
+        for k, sc in dict.items(c.collections):
+            paths.append(".".join(pre + [k]))
+            walk(sc, pre + [k])
+    walk(root, [])
+    pool = [["--list"], ["--list", "--list-format", "nested"], ["--list", "--list-format", "json"],
+            ["--list", "--list-depth", "1"], ["--list-format", "nested", "--list-depth", "2", "--list"]]
+    for p in paths:
+        pool += [["--list", p], ["--list", p, "--list-format", "nested"], ["--list", p, "--list-depth", "1"],
+                 ["--list", p, "--list-format", "json"]]
+    for n in hrng.sample(sorted(accepted), min(3, len(accepted))):
+        pool.append([n])
+    seq = [hrng.choice(pool) for _ in range(hrng.randint(5, 9))]
+    if paths:  # a scoped listing followed (not necessarily directly) by plain ones
+        seq.insert(hrng.randint(0, 2), ["--list", hrng.choice(paths)] + hrng.choice([[], ["--list-format", "nested"]]))
+    seq += [["--list"], ["--list", "--list-format", "nested"]]
+    return seq
+
+
+def history_program_reuse(spec, hseed):
+    """one (or two) Program objects serve a sequence of command lines on the same namespace: every run must look
+    exactly like the run of a fresh Program given the same command line"""
+    import random
+    from invoke import Program
+    hrng = random.Random(hseed)
+    try:
+        spec2, root, b = build_case(spec)
+        parser = impl_parser(root)
+    except (ValueError, SettingsClash):
+        return [], {"refused": 1}
+    if parser is None:
+        return [], {"refused": 1}
+    accepted = set(dict.keys(parser.contexts)) | set(parser.contexts.aliases.keys())
+    seq = reuse_argvs(root, hrng, accepted)
+    progs = [Program(namespace=root)] + ([Program(namespace=root)] if hrng.random() < 0.4 else [])
+    fails = []
+    done = []
+    for argv in seq:
+        p = hrng.choice(progs)
+        got = run_on(p, argv)
+        want = run_on(Program(namespace=root), argv)
+        done.append(argv)
+        if got != want:
+            bad = ""
+            if "--list-format" not in argv or "flat" in argv:
+                strange = [n for n, _ in parse_flat(got[0]) if n not in accepted and "--list" in argv and len(argv) == 1]
+                if strange:
+                    bad = "; it lists %r, which the CLI does not accept" % strange[:3]
+            fails.append(("program-reuse", "run %d of a reused Program, argv %r after %r: output %r, a fresh Program prints %r%s"
+                          % (len(done), argv, done[:-1][-3:], (got[0] or got[1] or got[3] or "")[:160], (want[0] or want[1] or want[3] or "")[:160], bad), []))
+            break
+    return fails, {"runs": len(done)}
+
+
+HISTORIES = {"incremental": history_incremental, "shared": history_shared, "program-reuse": history_program_reuse}
+
+
+def run_histories(ctx, out):
+    rng = ctx.rng
+    plan = [("incremental", ctx.n(110, 1500)), ("shared", ctx.n(60, 800)), ("program-reuse", ctx.n(50, 700))]
+    for kind, count in plan:
+        for _ in range(count):
+            spec = gen_tree(rng)
+            if kind != "program-reuse":
+                spec = methodsify(spec)
+            spec = strip(spec)
+            if not well_formed(spec):
+                continue
+            hseed = rng.randrange(1 << 30)
+            case = {"tree": spec, "names": [], "history": {"kind": kind, "seed": hseed}}
+            out.case(case, bool(spec["colls"]))
+            try:
+                fails, stats = HISTORIES[kind](spec, hseed)
+            except SettingsClash:
+                continue
+            except RecursionError:
+                continue
+            except Exception as e:
+                fails, stats = [("unexpected-exception", "history %s raised %s: %s" % (kind, type(e).__name__, e), [])], {}
+            out.hist["history_" + kind] += 1
+            for k, v in stats.items():
+                out.hist["history_%s_%s" % (kind, k)] += v
+            seen = set()
+            for fk, why, involved in fails:
+                out.hist["fail_" + fk] += 1
+                if fk in seen:
+                    continue
+                seen.add(fk)
+                out.fail(dict(case, names=sorted(set(involved)), check=fk), "%s [%s history]: %s" % (fk, kind, why))
+
+
 def run(ctx):
     from invoke import Collection
     out = Outcome()
@@ -1105,6 +1434,7 @@ def run(ctx):
         if got != norm_dotted(ad, s):
             out.fail({"tree": None, "names": [s], "check": "transform", "ad": ad}, "transform(%r) = %r, reference %r" % (s, got, norm_dotted(ad, s)))
     out.extra["queries"] = nq + len(tq)
+    run_histories(ctx, out)
     return out
 
 
@@ -1123,6 +1453,20 @@ def replay(case):
                 if Collection(auto_dash_names=ad).transform(s) != norm_dotted(ad, s):
                     bad.append((ad, s))
         return not bad, ("transform differs from the reference on %r" % bad) if bad else "ok"
+    if case.get("history"):
+        h = case["history"]
+        try:
+            fails, _ = HISTORIES[h["kind"]](case["tree"], h["seed"])
+        except SettingsClash:
+            return True, "settings along a path are type-inconsistent (don't-care)"
+        except Exception as e:
+            return False, "unexpected-exception: history %s raised %s: %s" % (h["kind"], type(e).__name__, e)
+        kind = case.get("check")
+        if kind:
+            fails = [f for f in fails if f[0] == kind]
+        if fails:
+            return False, "; ".join("%s: %s" % (k, w) for k, w, _ in fails[:3])
+        return True, "ok (%s history)" % h["kind"]
     try:
         spec, root, b = build_case(case["tree"])
     except ValueError as e:
